@@ -197,6 +197,34 @@ Proof.
 Qed.
 Print Assumptions slot_epoch_emits_iff_all_frames_arrive.
 
+(** both together: EXACTLY one emission iff every frame arrives, none otherwise *)
+Theorem slot_epoch_exactly_once_iff_all_frames_arrive :
+  forall (B : Type) (mtu so : N) (data : list B) frames nxt (sched : list nat)
+         (q : queue B) f0 d,
+    fragmenter_send mtu so data = Ok (frames, nxt) ->
+    (2 <= length frames)%nat ->
+    (forall j, In j sched -> (j < length frames)%nat) ->
+    length (q_buf q) = N.to_nat MAX_PACKET_SIZE -> h_so (f_hdr f0) = so ->
+    let emissions := filter is_emit
+          (feed (queue_init q f0) (map (fun j => nth j frames d) sched)) in
+    ((forall k, (k < length frames)%nat -> In k sched) -> length emissions = 1%nat) /\
+    (~ (forall k, (k < length frames)%nat -> In k sched) -> emissions = []).
+Proof.
+  intros B mtu so data frames nxt sched q f0 d Hs Hn Hj Hb Hf emissions. subst emissions.
+  pose proof (slot_epoch_emits_at_most_once B mtu so data frames nxt sched q f0 d Hs Hn Hj Hb Hf) as H1.
+  pose proof (slot_epoch_emits_iff_all_frames_arrive B mtu so data frames nxt sched q f0 d Hs Hn Hj Hb Hf) as H2.
+  set (l := feed (queue_init q f0) (map (fun j => nth j frames d) sched)) in *.
+  assert (Hex : existsb is_emit l = true <-> filter is_emit l <> []).
+  { clear. induction l as [|x l IH]; cbn [existsb filter]; [split; [discriminate|congruence]|].
+    destruct (is_emit x); cbn [orb]; [split; [discriminate|reflexivity]|exact IH]. }
+  split.
+  - intros Hall. apply H2, Hex in Hall. destruct (filter is_emit l) as [|a [|b r]]; cbn [length] in *;
+      [congruence|reflexivity|lia].
+  - intros Hn'. destruct (filter is_emit l) as [|a r] eqn:E; [reflexivity|].
+    exfalso. apply Hn', H2, Hex. discriminate.
+Qed.
+Print Assumptions slot_epoch_exactly_once_iff_all_frames_arrive.
+
 (** non-vacuity: a three-frame packet delivered last-frame-first is emitted, intact *)
 Example reorder_emits :
   let d1 := repeat 1 256 in let d2 := repeat 2 256 in let d3 := repeat 3 10 in
